@@ -569,6 +569,9 @@ func (database *ChainDatabase) GetConfirms(hash common.Hash) ([]types.SignData, 
 }
 
 func (database *ChainDatabase) LoadLatestBlock() (*types.Block, error) {
+	database.RW.RLock()
+	defer database.RW.RUnlock()
+
 	if database.LastConfirm.Block == nil {
 		return nil, ErrBlockNotExist
 	} else {
@@ -651,6 +654,9 @@ func (database *ChainDatabase) GetActDatabase(hash common.Hash) (*AccountTrieDB,
 	if (hash == common.Hash{}) {
 		return NewAccountTrieDB(NewEmptyDatabase(), database.Beansdb), nil
 	}
+
+	database.RW.RLock()
+	defer database.RW.RUnlock()
 
 	item := database.UnConfirmBlocks[hash]
 	if item == nil {
@@ -770,6 +776,9 @@ func (database *ChainDatabase) GetAssetID(id common.Hash) (common.Address, error
 }
 
 func (database *ChainDatabase) IterateUnConfirms(fn func(*types.Block)) {
+	database.RW.RLock()
+	defer database.RW.RUnlock()
+
 	database.LastConfirm.Walk(func(block *CBlock) {
 		fn(block.Block)
 	}, nil)
